@@ -90,8 +90,10 @@ def _contains_all(res, objs, op):
 FAR_B = {2: 10 ** 8, 3: 4 * 10 ** 5}
 
 
-def far_cases(fam, cases):
-    """The configuration translated far from the origin by the integer vector (B, .., B) (exact on integers: points
+def far_cases(fam, cases, B=None, dtype=np.int64, tag="far-from-origin"):
+    """(with B and dtype given: the configuration translated by (B, .., B) and stored in a narrower / unsigned dtype; cases with a
+    negative entry are skipped for unsigned dtypes.)
+    The configuration translated far from the origin by the integer vector (B, .., B) (exact on integers: points
     (x, w) -> (x + B w, w), hyperplanes (n, d) -> (n, d - B sum(n)); join and meet commute with it).  The products inside
     join / meet then exceed 2^53 but not 2^63: on integer coordinates the result must still be EXACTLY proportional to the
     translated exact result (checked with rational arithmetic on the returned floats, which are the exact integers times a
@@ -99,8 +101,9 @@ def far_cases(fam, cases):
     from fractions import Fraction
     op, dim, kinds = FAMS[fam]
     g = import_geometer()
-    B = FAR_B[dim]
+    B = FAR_B[dim] if B is None else B
     out = []
+    unsigned = np.issubdtype(dtype, np.unsignedinteger)
 
     def tr(kind, v):
         v = [int(x) for x in v]
@@ -111,11 +114,17 @@ def far_cases(fam, cases):
     for c in cases:
         if c["e"] != "none":
             continue
+        if (any(k == "line3" for k in kinds) or c["k"] == "line3") and B != 0:
+            continue        # the translation of Pluecker coordinates is not transcribed here
         args = [tr(k, v) for k, v in zip(kinds, c["a"])]
+        if unsigned:        # the representative with the opposite sign is as good
+            args = [[-x for x in v] if all(x <= 0 for x in v) else v for v in args]
+            if any(x < 0 for v in args for x in v):
+                continue
         exp = tr(c["k"], c["v"])
-        site = f"{op}({','.join(kinds)})/{dim}D/single/far-from-origin"
+        site = f"{op}({','.join(kinds)})/{dim}D/single/{tag}"
         try:
-            objs = [build(k, np.array(v, dtype=np.int64)) for k, v in zip(kinds, args)]
+            objs = [build(k, np.array(v, dtype=dtype)) for k, v in zip(kinds, args)]
             st, res = _call(op, objs)
             if st == "exc":
                 out.append(dict(cls="raise-on-independent", site=site, stratum=c["s"], case={"args": args}, expected={"k": c["k"], "v": exp},
@@ -532,6 +541,12 @@ def _work(job):
             return complex_cases(job[1])
         if kind == "far":
             return far_cases(job[1], job[2])
+        if kind == "dtype":
+            out = []
+            for dt in (np.uint8, np.uint16, np.uint32, np.uint64, np.int16, np.int32, np.float32):
+                for B in (0, 3):
+                    out += far_cases(job[1], job[2], B=B, dtype=dt, tag=f"coordinates-stored-as-{np.dtype(dt).name}")
+            return out
         if kind == "bcast":
             return broadcast_cases(job[1], job[2])
     except Exception as e:  # noqa: BLE001  -- a bug of the harness, not a verdict
@@ -602,6 +617,11 @@ def run(ctx: Ctx) -> int:
         if f in ("j2pp", "m2ll", "j3ppp", "m3eee") and prop == "C01":
             for i in range(0, len(gsel), 400):
                 jobs.append(("far", f, gsel[i:i + 400]))
+        if f in ("j2pp", "m2ll", "j3pp", "m3ee", "j3ppp", "m3eee") and prop == "C01":
+            # coordinates stored in narrower / unsigned integer types and in float32 (a slice of the general cases)
+            dsl = gsel[::max(1, len(gsel) // 600)]
+            for i in range(0, len(dsl), 150):
+                jobs.append(("dtype", f, dsl[i:i + 150]))
         # collections: (a) all-independent batches -> values; (b) mixed batches -> error + mask
         si = 0
         i = 0
@@ -679,7 +699,7 @@ def run(ctx: Ctx) -> int:
                 if inscope:
                     ctx.mismatch(m["site"], m["stratum"], m["case"], m["expected"], m["observed"], m["cls"])
             continue
-        if job[0] in ("far", "bcast"):
+        if job[0] in ("far", "bcast", "dtype"):
             nrep += len(job[2])
             for m in res:
                 if m["cls"] == "machinery":
